@@ -93,6 +93,22 @@ var c10Events = []c10Event{
 		imp.Kids = append([]*rm.Value{rm.StrV("x").FS(rm.NoText(0))}, imp.Kids...)
 		return []*rm.Value{st}
 	}},
+	{"import(sh, no version, max_id:4)+[l]", func() []*rm.Value {
+		st := c10LST(c10Import(rm.IntV(4)), "l")
+		imp := st.Kids[0].Kids[0]
+		imp.Kids = append(imp.Kids[:1], imp.Kids[2:]...)
+		return []*rm.Value{st}
+	}},
+	{"import(sh, version:0, max_id:4)+[l]", func() []*rm.Value {
+		st := c10LST(c10Import(rm.IntV(4)), "l")
+		st.Kids[0].Kids[0].Kids[1] = rm.IntV(0).F("version")
+		return []*rm.Value{st}
+	}},
+	{"user struct meta::$ion_symbol_table::{symbols:[u1]}", func() []*rm.Value {
+		st := c10LST(nil, "u1")
+		st.Annots = append([]rm.Sym{rm.T("name")}, st.Annots...) // a system symbol as the first annotation: it is not a table
+		return []*rm.Value{st}
+	}},
 	{"append-quoted", func() []*rm.Value {
 		s := rm.SymV("$ion_symbol_table")
 		s.Sym.Quoted = true
@@ -290,7 +306,7 @@ func init() {
 	mc.Register(&mc.Check{
 		ID:    "C10",
 		Title: "Symbols in a stream resolve against the symbol table in force at that point",
-		Rule: "EVERY event sequence of length <= L over 26 events {version marker; replacing LST [s1,s2] / [s3]; LST importing sh v2 with max_id 0 / 1 / 2 / 4 / absent / null / -1 / -2 plus local l; LST importing sh v2 and declaring no local symbols (symbols:[] and no symbols field); an LST whose symbols list holds null.string and a non-string; appending LST (imports:$ion_symbol_table, bare and quoted); tables carrying open content whose field name has no text ($0) in the table struct and in an import struct; user value using SID n as field name, annotation and symbol value for n in {0,4,10,11,12,13,14}; structs annotated $ion_symbol_table nested in a list and a struct} x 5 catalogs {exact v2, none, newer v3 only, older v1 only, v1+v3} x {binary, text}, read by the real Reader with that catalog. " +
+		Rule: "EVERY event sequence of length <= L over 29 events {version marker; replacing LST [s1,s2] / [s3]; LST importing sh v2 with max_id 0 / 1 / 2 / 4 / absent / null / -1 / -2 plus local l; LST importing sh with no version / version 0 (both mean version 1); LST importing sh v2 and declaring no local symbols (symbols:[] and no symbols field); an LST whose symbols list holds null.string and a non-string; appending LST (imports:$ion_symbol_table, bare and quoted); tables carrying open content whose field name has no text ($0) in the table struct and in an import struct; user value using SID n as field name, annotation and symbol value for n in {0,4,10,11,12,13,14}; structs annotated $ion_symbol_table nested in a list and a struct; a top-level struct whose SECOND annotation is $ion_symbol_table (a user value)} x 5 catalogs {exact v2, none, newer v3 only, older v1 only, v1+v3} x {binary, text}, read by the real Reader with that catalog. " +
 			"Oracle: the reference decoder/parser + refsym context machine over the same bytes: every user value's symbols by text / unknown-text+SID, SymbolTable().MaxID() at every top-level value, no table struct surfacing, and a stream error exactly when the reference finds an undefined SID or an import without usable max_id and no exact match (values before the error compared). " +
 			"non-trivial = all values and MaxIDs compared; distinct = distinct (catalog, values, MaxIDs, error) digests",
 		Bounds:      map[string]string{"quick": "L=4", "thorough": "L=5"},
